@@ -23,7 +23,11 @@ def blocks32 : Nat → Bytes → List Bytes
   | 0, _ => []
   | k + 1, b => if b.length < 32 then [] else b.take 32 :: blocks32 k (b.drop 32)
 
-def gen (api : String) (script : Bytes) (extra : List String) : Option String :=
+def need (api : String) : Nat :=
+  match api with
+  | "keygen16" => 16 | "keygen64" => 64 | "ss_init_push" => 24 | "ristretto_random" => 64 | "scalar_random" => 0 | _ => 32
+
+def genInner (api : String) (script : Bytes) (extra : List String) : Option String :=
   match api, extra with
   | "keygen16", [] => let r := keygen 16 script; some s!"{sizes r.1} {toHex r.2}"
   | "keygen32", [] => let r := keygen 32 script; some s!"{sizes r.1} {toHex r.2}"
@@ -57,6 +61,9 @@ def gen (api : String) (script : Bytes) (extra : List String) : Option String :=
     | none => some "exhausted"
     | some (r, k) => some s!"{sizes (List.replicate k 32)} {toHex r}"
   | _, _ => none
+
+def gen (api : String) (script : Bytes) (extra : List String) : Option String :=
+  if script.length < need api then (genInner api script extra).map fun _ => "exhausted" else genInner api script extra
 
 def handle (op : String) (args : List String) : Option String :=
   match op, args with
